@@ -91,6 +91,9 @@ func runC03(t *testing.T, e *worlds.Env, tier string) (bool, any) {
 			addrs = append(addrs, addr)
 			ups.Add("tcp", addr, tp.Pick("dial-lat-ms", 0, 0, 5, 200))
 			sc := &worlds.UpScript{Tag: byte(i), Key: e.S.Seed*53 + uint64(i), AbortAt: -1, TLS: tlsUp}
+			if tlsUp && tp.Prob(1, 2, "tls12-upstream") {
+				sc.TLSMaxVersion = tls.VersionTLS12
+			}
 			modes := []int{worlds.UpSink, worlds.UpSource, worlds.UpReplyAtEOF, worlds.UpDuplex, worlds.UpEcho}
 			if npeers > 1 {
 				modes = modes[:4]
